@@ -2,13 +2,22 @@
 stated non-triviality rule and the assumptions reported in the evidence."""
 
 SPECS = {}
+HOOK_COMMITS = []
+HOOKS_NOTE = 'no source hook is needed so far: instrumentation is external (own <ev.h>, #include of echsd.c/echsq.c into harness TUs, macro/link-time interposition)'
+EXTRA_ENGINES = []
+NOTES = ('Every check rebuilds the code under test from /repo/src (hash-keyed cache under build/), replays known findings and '
+         'regression replays first, then runs generated search on 16 workers; see DESIGN.md.')
 
 SPECS['C19'] = dict(
     kind='native', drivers=['p_c19.cpp'], shims=['sut_bitint'], with_lib=True,
-    level='exploration',
+    level='exploration', exhaustive_part=True,
+    technique='exhaustive enumeration of short insertion sequences + rapidcheck sequences against a std::set model',
+    level_text=('All insertion sequences up to length 2 (and triples) over the documented ranges are enumerated completely and longer '
+                'ones sampled with shrinking, each judged against std::set; finite part is complete, longer sequences are sampled.'),
+    level_note='trusts std::set and the shim sut/sut_bitint.c (which uses the iteration idiom of evrrul.c); ASan+bounds on',
     rule=('six containers (bituint31/63, bitint31/63, bitint383/447) over their documented ranges; ALL insertion '
           'sequences of length 1 and 2, ALL ordered triples of the four header types (and of the two library types in '
-          'the thorough tier; quick: all unordered triples in 3 insertion orders) are enumerated completely, plus '
+          'the thorough tier; quick: all unordered triples in 2 insertion orders) are enumerated completely, plus '
           'rapidcheck sequences of length 4..40 (crossing the 12/14-entry native->bitset switch). Oracle: std::set<int>; '
           'iteration through the callers\' for(it=0; v=next(&it,s), it;) idiom must yield exactly the set, each value once, '
           'and stop; has_bit_p (where offered) must agree on every value of the range. non-trivial = the sequence contains 0, '
